@@ -123,7 +123,7 @@ Print Assumptions c06_csrf_nonget.
 
 (* the full form is false of the current tree (finding F15): these are exactly the routes whose
    state-changing effect a cross-site GET carrying the victim's session reaches (ten since the
-   registration-finish handlers insist on POST, 6ebb558) *)
+   registration-finish handlers insist on POST, 8abc791) *)
 Theorem c06_get_state_changers :
   get_state_changers =
   ["runtimeState.u2fRegisterRequest"; "runtimeState.u2fSignRequest";
@@ -161,7 +161,7 @@ Theorem c06_old_manage_refuted :
 Proof. exists env0, (cross_get 1 bU2F), EChange. vm_compute. tauto. Qed.
 Print Assumptions c06_old_manage_refuted.
 
-(* the two registration-finish handlers before 6ebb558: a GET carrying the token's answer, a foreign
+(* the two registration-finish handlers before 8abc791: a GET carrying the token's answer, a foreign
    Referer and the victim's session stored a new hardware token *)
 Theorem c06_old_register_finish_refuted :
   exists env q e, q_origin q = CrossOrigin /\ In e (snd (run env q register_finish_old_steps None)) /\
